@@ -11,7 +11,7 @@ import json
 import math
 import uuid
 
-__all__ = ("Zoo", "enc", "dec", "dumps", "loads", "digest")
+__all__ = ("Zoo", "Wrapped", "enc", "dec", "dumps", "loads", "digest")
 
 
 class Zoo:
@@ -29,6 +29,25 @@ class Zoo:
 
     def __hash__(self):
         return hash(("Zoo", self.name))
+
+
+class Wrapped:
+    """Marker for an instance of a plain subclass of a built-in with given content, e.g.
+    Wrapped("defaultdict", {"a": 1}); resolved to a fresh object by pbt.values.realize."""
+    __slots__ = ("kind", "value")
+
+    def __init__(self, kind, value):
+        self.kind = kind
+        self.value = value
+
+    def __repr__(self):
+        return f"Wrapped({self.kind!r}, {self.value!r})"
+
+    def __eq__(self, other):
+        return isinstance(other, Wrapped) and (other.kind, other.value) == (self.kind, self.value)
+
+    def __hash__(self):
+        return hash(("Wrapped", self.kind))
 
 
 def enc(o):
@@ -50,6 +69,8 @@ def enc(o):
         return {"$": "..."}
     if isinstance(o, Zoo):
         return {"$zoo": o.name}
+    if isinstance(o, Wrapped):
+        return {"$wrapped": o.kind, "value": enc(o.value)}
     if isinstance(o, bytes):
         return {"$bytes": o.hex()}
     if isinstance(o, uuid.UUID):
@@ -95,6 +116,8 @@ def dec(e):
             return Ellipsis
         if "$zoo" in e:
             return Zoo(e["$zoo"])
+        if "$wrapped" in e:
+            return Wrapped(e["$wrapped"], dec(e["value"]))
         if "$bytes" in e:
             return bytes.fromhex(e["$bytes"])
         if "$uuid" in e:
